@@ -10,6 +10,8 @@
 (*   an RCConfs name: RowCollector in one mode m = column lists  i = list of rows *)
 (*   "grid"    DataPlotGrid: the state is (n, ncols, transpose)            *)
 (*   "comb"    DataCombination: the state is the list of item lists        *)
+(*   "cmb"     DataCombination whose lists the caller changes in place     *)
+(*             after construction                                          *)
 (*                                                                         *)
 (* MaxDepth = 0 : the complete reachable state graph (operation sequences  *)
 (*   of any length; tables bounded by MaxRecs/MaxRows).  One JSON record   *)
@@ -43,7 +45,8 @@ CONSTANTS
   RCConfs, MaxRows,
   SortMaxRows,                \* sort is explored on tables of at most this many rows (it enumerates permutations)
   GridMaxN, GridMaxCols, AxSize,
-  CombVals, CombMaxLists, CombMaxLen
+  CombVals, CombMaxLists, CombMaxLen,
+  CombInits                   \* initial lists of lists of the "cmb" machine
 
 VARIABLES which, m, i, judged, tags, ret, hist
 vars == <<which, m, i, judged, tags, ret, hist>>
@@ -77,6 +80,8 @@ Choose ==
           IN New(w, m0, i0, [op |-> "new", ist |-> RCI_Compact(i0), mst |-> <<>>])
      \/ /\ "grid" \in Machines /\ New("grid", [n |-> 0, nc |-> 1, tr |-> FALSE], <<>>, <<>>)
      \/ /\ "comb" \in Machines /\ New("comb", <<>>, <<>>, <<>>)
+     \/ /\ "cmb" \in Machines
+        /\ \E l0 \in CombInits : New("cmb", CMM_New(l0), CMI_New(l0), [op |-> "new", init |-> l0, ist |-> CMI_Compact(CMI_New(l0)), mst |-> <<>>])
 
 (* ------------------------- ParameterTable(keys=True) ------------------------- *)
 PTDo(op) ==
@@ -172,22 +177,40 @@ CombRefines == which = "comb" =>
   /\ CombM_Keys(m) = [j \in 1..Len(it) |-> it[j][1]]
   /\ CombM_Values(m) = [j \in 1..Len(it) |-> it[j][2]]
 
-Next == Choose \/ PTNext \/ PLNext \/ RCNext \/ GridNext \/ CombNext
+(* ------------------- DataCombination, lists changed in place ----------------- *)
+CMDo(op) ==
+  /\ m' = CMM_Step(m, op) /\ i' = CMI_Step(i, op) /\ ret' = NoRet
+  /\ Log([op |-> op, err |-> FALSE, ist |-> CMI_Compact(i'), mst |-> <<>>])
+  /\ UNCHANGED <<which, judged, tags>>
+CMNext ==
+  /\ which = "cmb" /\ Room
+  /\ \/ \E l \in 1..Len(m.items) : Len(m.items[l]) < 2 /\ CMDo([op |-> "append", l |-> l, v |-> 2])
+     \/ \E l \in 1..Len(m.items) : Len(m.items[l]) > 0 /\ CMDo([op |-> "pop", l |-> l])
+     \/ \E l \in 1..Len(m.items) : Len(m.items[l]) = 0 /\ CMDo([op |-> "extend", l |-> l, vs |-> <<1, 2>>])
+     \/ Len(m.items) < 3 /\ CMDo([op |-> "addlist", vs |-> <<1>>])
+\* the machine's output is one of the admissible ones and meets the product requirement for the lists as they are
+CombLiveRefines == which = "cmb" =>
+  /\ CMM_Obs(m).alt[1] \in Range(CMI_Obs(i).alt)
+  /\ CombI_VerdictAll(i.lists, CMM_Obs(m).alt[1]) = "ok"
+
+Next == Choose \/ PTNext \/ PLNext \/ RCNext \/ GridNext \/ CombNext \/ CMNext
 Spec == Init /\ [][Next]_vars
 
 (* --------------------------------- properties -------------------------------- *)
 IObs == CASE which = "pt" -> PTI_Obs(i, ProbeKeys, NProbe)
           [] which = "pl" -> PLI_Obs(i, NProbe)
           [] IsRC -> RCI_Obs(i)
+          [] which = "cmb" -> CMI_Obs(i)
 MObs == CASE which = "pt" -> PTM_Obs(m, ProbeKeys, NProbe)
           [] which = "pl" -> PLM_Obs(m, NProbe)
           [] IsRC -> RCM_Obs(m)
-ICompact == CASE which = "pt" -> PTI_Compact(i) [] which = "pl" -> PLI_Compact(i) [] IsRC -> RCI_Compact(i)
-MCompact == CASE which = "pt" -> PTM_Compact(m) [] which = "pl" -> PLM_Compact(m) [] IsRC -> RCM_Compact(m)
-Stateful == which \in {"pt", "pl"} \/ IsRC
+          [] which = "cmb" -> CMM_Obs(m)
+ICompact == CASE which = "pt" -> PTI_Compact(i) [] which = "pl" -> PLI_Compact(i) [] IsRC -> RCI_Compact(i) [] which = "cmb" -> CMI_Compact(i)
+MCompact == CASE which = "pt" -> PTM_Compact(m) [] which = "pl" -> PLM_Compact(m) [] IsRC -> RCM_Compact(m) [] which = "cmb" -> CMM_Compact(m)
+Stateful == which \in {"pt", "pl", "cmb"} \/ IsRC
 Excused == tags # {} /\ tags \subseteq KnownDevs          \* a named deviation recorded as an open finding was taken
 
-Refines == (Stateful /\ judged /\ ~Excused) => (MObs = IObs /\ ret.m = ret.i)
+Refines == (Stateful /\ which # "cmb" /\ judged /\ ~Excused) => (MObs = IObs /\ ret.m = ret.i)          \* "cmb": CombLiveRefines
 PTSync == (which = "pt" /\ judged) => (m.keys = D_Keys(m.data) /\ m.keys = i.order)
 SortRefines == (IsRC /\ judged /\ tags = {} /\ Len(i.rows) <= SortMaxRows) =>
   \A name \in Range(i.cols), rev \in BOOLEAN :
